@@ -339,6 +339,7 @@ func (m *model) step(h int64, ops []op, res []txOutcome, prev, cur *obs) {
 				for n, s := range m.reg {
 					if isSub(n) && parentOf(n) == o.Domain {
 						s.Active = false
+						lastOp[n] = o.Kind.String()
 					}
 				}
 			}
@@ -424,6 +425,7 @@ func (m *model) step(h int64, ops []op, res []txOutcome, prev, cur *obs) {
 			for n, s := range m.reg {
 				if isSub(n) && parentOf(n) == o.Domain {
 					s.Expire = d.Expire
+					lastOp[n] = o.Kind.String()
 				}
 			}
 			m.fire("renewed")
